@@ -74,7 +74,7 @@ def run(tier, seed, replay=None):
         rp = json.load(open(replay))
         reqs = [rp['request']] if 'request' in rp else []
     else:
-        kinds = ['flat', 'multi', 'nested', 'nested_big', 'unsized', 'tworoots', 'nestedx', 'payload', 'overlap', 'split', 'unsized2', 'ltbound', 'targs:reflexive_mix', 'targs:nested_arg', 'targs:generic', 'targs:concrete', 'arity', 'nested_relaxed_inner', 'tie', 'combo', 'combo', 'dupcols']
+        kinds = ['flat', 'multi', 'nested', 'nested_big', 'unsized', 'tworoots', 'nestedx', 'payload', 'overlap', 'split', 'unsized2', 'ltbound', 'targs:reflexive_mix', 'targs:nested_arg', 'targs:generic', 'targs:concrete', 'arity', 'nested_relaxed_inner', 'tie', 'combo', 'combo', 'dupcols', 'unsized2x']
         seen = {}
         for i in range(n):
             k = kinds[i % len(kinds)]
